@@ -113,13 +113,13 @@ def run_conditions(chk, conds, workers=None):
         for c in conds:
             by_mod.setdefault(c.module, []).append(c)
         for mod, cs in by_mod.items():
-            twin_paths[mod] = _make_twin_file(_source_path(mod), [c.func for c in cs if c.twin], tmp)
+            twin_paths[mod] = _make_twin_file(_source_path(mod), sorted({c.func for c in cs if c.twin}), tmp)
         jobs = {}
         with cf.ThreadPoolExecutor(max_workers=workers) as ex:
             for c in conds:
                 jobs[ex.submit(_run_one, _source_path(c.module), c.func, c.timeout_s, c.env, c.per_path_timeout)] = (c, "goal")
                 if c.twin:
-                    jobs[ex.submit(_run_one, twin_paths[c.module], c.func + "__twin", min(c.timeout_s, 60), c.env, c.per_path_timeout)] = (c, "twin")
+                    jobs[ex.submit(_run_one, twin_paths[c.module], c.func + "__twin", max(60, c.timeout_s // 3), c.env, c.per_path_timeout)] = (c, "twin")
             res = {}
             for f in cf.as_completed(jobs):
                 c, kind = jobs[f]
